@@ -475,6 +475,10 @@ func (e *Exec) callFunc(st *State, call *ast.CallExpr, fn *types.Func, recv Valu
 		e.calleesUsed[name] = true
 	}
 	sig := fn.Type().(*types.Signature)
+	if isig, ok := info.TypeOf(call.Fun).(*types.Signature); ok && sig.TypeParams().Len() > 0 {
+		// instantiated generic function: use the instance's parameter types, keep receiver/param names
+		sig = types.NewSignatureType(sig.Recv(), nil, nil, renameParams(isig.Params(), sig.Params()), isig.Results(), isig.Variadic())
+	}
 	if sig.Variadic() && !call.Ellipsis.IsValid() {
 		np := sig.Params().Len()
 		vt := sig.Params().At(np - 1).Type().Underlying().(*types.Slice).Elem()
@@ -587,8 +591,24 @@ func (e *Exec) applyContract(st *State, c *Contract, sig *types.Signature, recv 
 		v := env.eval(u.Expr)
 		st.ghost[u.Name] = specTerm(v)
 	}
+	var anyBound []*Term
+	for _, a := range c.Anys {
+		quantCounter++
+		bv := mkVar(fmt.Sprintf("%s!q%d", a.Name, quantCounter), specSort(a.Type))
+		anyBound = append(anyBound, bv)
+		env.vars[a.Name] = wrapTerm(bv)
+	}
 	for _, en := range c.Ensures {
 		env.what = "call of " + name + " ensures @" + en.Label
+		if len(anyBound) > 0 && mentionsAny(en.Expr, c.Anys) {
+			st.quiet++
+			old.quiet++
+			body := env.evalBool(en.Expr)
+			st.quiet--
+			old.quiet--
+			st.assume(mkForall(anyBound, body))
+			continue
+		}
 		st.assume(env.evalBool(en.Expr))
 	}
 	return res
@@ -602,6 +622,7 @@ type modTarget struct {
 	kind string // heap mem ghost
 	keys []leafKey
 	root *Term // ref (heap) / array id (mem) / index (ghost, may be nil)
+	elem *Term // mem: single element index (nil: the whole backing array)
 	name string
 }
 
@@ -645,6 +666,9 @@ func (e *Exec) modTarget(env *SpecEnv, it *SExpr) []modTarget {
 		return []modTarget{t}
 	case *MemLoc:
 		t := modTarget{kind: "mem", root: l.Arr}
+		if !l.Whole {
+			t.elem = l.Idx
+		}
 		for _, lf := range ls {
 			t.keys = append(t.keys, leafKey{l.Fam + l.Path + lf.Path, lf.Sort})
 		}
@@ -665,7 +689,7 @@ func (e *Exec) modLoc(env *SpecEnv, it *SExpr) (Loc, types.Type) {
 				env.fail(it, "elems() of non-slice")
 			}
 			et := sv.Typ.Underlying().(*types.Slice).Elem()
-			return &MemLoc{Fam: memFamily(et), Arr: sv.Arr, Idx: tZero, Typ: et}, et
+			return &MemLoc{Fam: memFamily(et), Arr: sv.Arr, Idx: tZero, Typ: et, Whole: true}, et
 		}
 	case "unary":
 		if it.Op == "*" {
@@ -731,6 +755,8 @@ func (e *Exec) havocTargets(st *State, ts []modTarget) {
 				m := st.memMap(k.key, k.sort)
 				if t.root == nil {
 					st.mem[k.key] = e.nm.fresh("M!"+k.key, m.Sort)
+				} else if t.elem != nil {
+					st.mem[k.key] = mkStore(m, t.root, mkStore(mkSelect(m, t.root), t.elem, e.nm.fresh("ev", k.sort)))
 				} else {
 					st.mem[k.key] = mkStore(m, t.root, e.nm.fresh("mv", SArray(k.sort)))
 				}
@@ -1113,3 +1139,34 @@ func (e *Exec) convert(st *State, v Value, to types.Type, at ast.Node) Value {
 func (e *Exec) truncOK(at ast.Node) bool { return false }
 
 var _ = token.ADD
+
+func mentionsAny(x *SExpr, anys []binder) bool {
+	if x == nil {
+		return false
+	}
+	if x.Kind == "ident" {
+		for _, a := range anys {
+			if a.Name == x.Name {
+				return true
+			}
+		}
+	}
+	for _, a := range x.Args {
+		if mentionsAny(a, anys) {
+			return true
+		}
+	}
+	return false
+}
+
+func renameParams(inst, generic *types.Tuple) *types.Tuple {
+	var vs []*types.Var
+	for i := 0; i < inst.Len(); i++ {
+		n := inst.At(i).Name()
+		if i < generic.Len() && generic.At(i).Name() != "" {
+			n = generic.At(i).Name()
+		}
+		vs = append(vs, types.NewParam(inst.At(i).Pos(), inst.At(i).Pkg(), n, inst.At(i).Type()))
+	}
+	return types.NewTuple(vs...)
+}
